@@ -274,9 +274,7 @@ func (filter *CuckooFilterRedis) Import(data []byte, withNewRedisKey bool) error
 		bucketJSON := f.Buckets[i]
 		bucketKey := filter.getIndexKey(uint64(i))
 		bucket := newBucketRedis(bucketKey, f.BucketSize)
-		for j := range bucketJSON.Elements {
-			bucket.add(bucketJSON.Elements[j])
-		}
+		bucket.restore(bucketJSON.Elements)
 		filters[bucketKey] = bucket
 	}
 	filter.buckets = filters
